@@ -17,6 +17,19 @@ def exact_copy_positions(a, read):
     return [p for p in range(0, len(read) - m + 1) if all(eq(x, y) for x, y in zip(a.sequence, read[p:p + m]))]
 
 
+_REAL = {}
+
+
+def real_adapter(cfg):
+    """the same adapter with its real k-mer prefilter (the theorems are about the aligner; C07 relates the two)"""
+    key = repr(sorted(cfg.items()))
+    if key not in _REAL:
+        if len(_REAL) > 2000:
+            _REAL.clear()
+        _REAL[key] = gens.make_adapter(cfg, mock_kmer=False)[0]
+    return _REAL[key]
+
+
 def one_case(ctx, cfg, a, read, cases):
     mt = a.match_to(read)
     cases.append((gens.matchto_line(cfg, read), gens.show_match(mt)))
@@ -31,6 +44,16 @@ def one_case(ctx, cfg, a, read, cases):
         if mt is None:
             ctx.failures.append(Failure("C02/occurrence-missed", "an admissible occurrence exists but no match is reported", inp, None, list(occ)))
             return
+        # what the user gets: aligner behind the k-mer prefilter
+        ar = real_adapter(cfg)
+        if ar is not None and ar.match_to(read) is None:
+            k = int(len(a.sequence) * a.max_error_rate)
+            if ty == "anywhere" and len(read) < len(a.sequence) + k:
+                sig = "C02/missed-by-prefilter-anywhere-read-inside-adapter"
+            else:
+                sig = "C02/occurrence-missed-by-prefilter"
+            ctx.failures.append(Failure(sig, "an admissible occurrence exists and the aligner finds a match, but the k-mer prefilter rejects the read",
+                                        inp, None, list(occ)))
     if mt is None:
         return
     m, n = len(a.sequence), len(read)
